@@ -379,6 +379,13 @@ class ExprMixin:
             return Val(a.ty, [z3.SetUnion(a.t, b.t)])
         if isinstance(op, ast.Sub) and isinstance(a.ty, TSet):
             return Val(a.ty, [z3.SetDifference(a.t, b.t)])
+        if isinstance(a, Val) and isinstance(b, Val) and isinstance(a.ty, TOpaque) and isinstance(b.ty, TOpaque) \
+                and a.ty.sort_name == "Any" and b.ty.sort_name == "Any":
+            # an operator between two untracked objects (their classes define it): an uninterpreted function of the two values
+            self.note_assumption("operator %s between untracked objects is an uninterpreted function of its operands and is assumed not to raise"
+                                 % type(op).__name__)
+            (srt,) = a.ty.comps()
+            return Val(a.ty, [z3.Function("op!%s!Any" % type(op).__name__, srt, srt, srt)(a.t, b.t)])
         raise Unsupported("binary op %s on %r, %r" % (type(op).__name__, a, b), node)
 
     def path_roots(self, st):
